@@ -68,6 +68,7 @@ static void run_case(long idx)
     size_t const contentLen = (T.algo == A_FINALIZE || T.algo == A_ADDENTROPY) ? (vr_chance(&r, 1, 5) ? vr_u(&r, 9) : vr_u64(&r, V_MIN(cap, (size_t)60000) + 1)) : 0;
     uint8_t* content = (uint8_t*)__real_malloc(contentLen + 8); gen_data(&r, content, contentLen, fam);
     char desc[400]; snprintf(desc, sizeof desc, "algo=%s samples=%s nb=%u total=%zu cap=%zu k=%u d=%u f=%u accel=%u steps=%u threads=%u split=%.2f shrink=%u level=%d dictID=%u content=%zu", a_name[T.algo], sclass, nb, total, cap, T.k, T.d, T.f, T.accel, T.steps, T.nbThreads, T.split, T.shrink, T.level, T.dictID, contentLen);
+    if (getenv("VERIF_DBG")) fprintf(stderr, "DESC %s\n", desc);
     gbuf D = gb_alloc(cap, 0);
     w_noise = 1; w_state = vr_next(&r);
     size_t const ds = train(&T, D.p, cap, S.p, sizes, nb, content, contentLen);
